@@ -224,24 +224,27 @@ Definition set_version (s : store) (t : tract) (v : Z) (cond : option stamp) : s
              else (s, (E_VersionMismatch, v))
          end.
 
-(* pullTractOnce: [reply] is what TractserverTalker.CtlRead answers for this source *)
-Definition pull_once (s : store) (t : tract) (reply : Z * rle) (v : Z) (orc : N) : store * Z :=
+(* pullTractOnce, first half: look at the local copy.  Some e = give up with e; None = no local copy
+   (any more), go on and fetch *)
+Definition pull_pre (s : store) (t : tract) (v : Z) : store * option Z :=
   let remove := let '(s', e') := remove_tract s t in
                 (s', if (e' =? E_OK)%Z then None else Some e') in
-  let pre :=
-    match lookup s t with
-    | None => (s, None)
-    | Some _ =>
-        match open_existing s t with
-        | Op_err e => if (e =? E_PANIC)%Z then (s, Some E_PANIC) else remove
-        | Op_ok _ f =>
-            match f_ver f with
-            | Some cur => if (v <? cur)%Z then (s, Some E_InvalidState) else remove
-            | None => remove                                  (* unreadable version: overwrite *)
-            end
-        end
-    end in
-  match pre with
+  match lookup s t with
+  | None => (s, None)
+  | Some _ =>
+      match open_existing s t with
+      | Op_err e => if (e =? E_PANIC)%Z then (s, Some E_PANIC) else remove
+      | Op_ok _ f =>
+          match f_ver f with
+          | Some cur => if (v <? cur)%Z then (s, Some E_InvalidState) else remove
+          | None => remove                                  (* unreadable version: overwrite *)
+          end
+      end
+  end.
+
+(* pullTractOnce: [reply] is what TractserverTalker.CtlRead answers for this source *)
+Definition pull_once (s : store) (t : tract) (reply : Z * rle) (v : Z) (orc : N) : store * Z :=
+  match pull_pre s t v with
   | (s1, Some e) => (s1, e)
   | (s1, None) =>
       let '(re, data) := reply in
@@ -320,45 +323,62 @@ Definition resolve_one (s : store) (c : tract * N * N * N * N) : store :=
   else if (v1 <? v2)%Z then fix_tract s t i2 i1 pd2 pd1
   else del_tract s t i1 i2 pd1 pd2.
 
-(* the loop over readTractIDs(disk) under s.lock: new tracts enter the table, known ones become conflicts;
-   None = a table entry points at an empty slot (Go: nil Disk captured, panics when opened) *)
-Fixpoint scan_new (s : store) (i : N) (pd : N) (tids : list tract) (tb : amap (N * stamp))
-         (cs : list (tract * N * N * N * N)) : option (amap (N * stamp) * list (tract * N * N * N * N)) :=
-  match tids with
-  | [] => Some (tb, rev cs)
-  | t :: rest =>
-      match get t tb with
-      | Some (i1, _) =>
-          match disk_of s i1 with
-          | Some pd1 => scan_new s i pd rest tb ((t, i1, i, pd1, pd) :: cs)
-          | None => None
-          end
-      | None => scan_new s i pd rest (put t (i, stamp0 s) tb) cs
-      end
-  end.
+(* The loop over readTractIDs(disk) under s.lock: ids not yet in the table enter it at the new slot,
+   known ones become conflicts (tract, old slot, new slot, old disk, new disk).  The ids of one disk are
+   pairwise distinct, so the loop is these two independent passes. *)
+Definition new_entries (s : store) (i : N) (tids : list tract) : amap (N * stamp) :=
+  fold_left (fun tb t => match get t (table s) with
+                         | None => put t (i, stamp0 s) tb
+                         | Some _ => tb
+                         end) tids (table s).
+
+Definition conflicts_of (s : store) (i pd : N) (tids : list tract) : list (tract * N * N * N * N) :=
+  flat_map (fun t => match get t (table s) with
+                     | Some (i1, _) => match disk_of s i1 with
+                                       | Some pd1 => [(t, i1, i, pd1, pd)]
+                                       | None => []
+                                       end
+                     | None => []
+                     end) tids.
+
+(* a table entry pointing at an empty slot: Go captures a nil Disk and panics when it opens the tract *)
+Definition dangling (s : store) (tids : list tract) : bool :=
+  existsb (fun t => match get t (table s) with
+                    | Some (i1, _) => match disk_of s i1 with Some _ => false | None => true end
+                    | None => false
+                    end) tids.
+
+(* the slot a physical disk is attached at (RemoveDisk / SetControlFlags scan the slots in index order;
+   [slots] is kept sorted by index) *)
+Definition slot_of (s : store) (pd : N) : option N :=
+  find (fun i => match get i (slots s) with Some p => p =? pd | None => false end) (keys (slots s)).
+
+(* readTractIDs: the set of tract ids on the disk (a directory has no duplicate names) *)
+Definition tids_of (d : pdisk) : list tract := nodup N.eq_dec (keys d).
 
 Definition add_disk (s : store) (pd : N) : store * Z :=
-  if existsb (fun p => snd p =? pd) (slots s) then (s, E_DiskExists)
+  if match slot_of s pd with Some _ => true | None => false end then (s, E_DiskExists)
   else match free_slot s with
        | None => (s, E_PANIC)
        | Some i =>
-           match scan_new s i pd (keys (files_of s pd)) (table s) [] with
-           | None => (s, E_PANIC)
-           | Some (tb, cs) =>
-               let s1 := mkstore (disks s) (noalloc s) (put i pd (slots s)) tb (epoch s) (mgr s) in
-               (fold_left resolve_one cs s1, E_OK)
-           end
+           let tids := tids_of (files_of s pd) in
+           if dangling s tids then (s, E_PANIC)
+           else
+             let s1 := mkstore (disks s) (noalloc s) (put i pd (slots s)) (new_entries s i tids)
+                               (epoch s) (mgr s) in
+             (fold_left resolve_one (conflicts_of s i pd tids) s1, E_OK)
        end.
 
-Definition slot_of (s : store) (pd : N) : option N :=
-  match filter (fun p => snd p =? pd) (slots s) with (i, _) :: _ => Some i | [] => None end.
+(* is tract t recorded on slot i *)
+Definition on_slot (s : store) (i : N) (t : tract) : bool :=
+  match get t (table s) with Some (d, _) => d =? i | None => false end.
 
 Definition remove_disk (s : store) (pd : N) : store * Z :=
   match slot_of s pd with
   | None => (s, E_PANIC)
   | Some i =>
       (mkstore (disks s) (noalloc s) (del i (slots s))
-               (filter (fun e => negb (fst (snd e) =? i)) (table s)) (epoch s) (mgr s), E_OK)
+               (filter (fun e => negb (on_slot s i (fst e))) (table s)) (epoch s) (mgr s), E_OK)
   end.
 
 (* Store.SetControlFlags(root, {StopAllocating: stop}) *)
